@@ -2,6 +2,7 @@ package main
 
 import (
 	"fmt"
+	"strings"
 	"sync"
 	"time"
 
@@ -20,6 +21,7 @@ type mChild struct {
 	obj       *rt.Obj
 	mu        *sync.Mutex
 	capsPoint bool
+	onFlush   func() // called at the end of Flush (a child that calls back into the multi reporter it belongs to)
 }
 
 type mCaps struct{ r, t bool }
@@ -45,7 +47,12 @@ func (c *mChild) Capabilities() tally.Capabilities {
 	}
 	return mCaps{c.reporting, c.tagging}
 }
-func (c *mChild) Flush() { c.add("flush") }
+func (c *mChild) Flush() {
+	c.add("flush")
+	if c.onFlush != nil {
+		c.onFlush()
+	}
+}
 func (c *mChild) ReportCounter(n string, t map[string]string, v int64) {
 	c.add("counter %s %s %d", n, tagString(t), v)
 }
@@ -696,6 +703,63 @@ func c19Scenarios(tier string) []*Scenario {
 		}
 		sc.Check = func(x *Run, o *rt.Outcome) (string, string, string) { return "", "", "ok" }
 		out = append(out, sc)
+		// H: the middle child reports on itself: from inside its Flush it hands a counter value to the multi reporter it
+		// belongs to. Flush and reports from two goroutines meanwhile: every child still sees every call once, and
+		// everybody returns
+		sh := &Scenario{Property: "C19", Name: "H-a-child-that-reports-through-its-own-multi-reporter-" + b2s(cached)}
+		sh.Body = func(x *Run) {
+			var log []string
+			obj := &rt.Obj{}
+			mu := &sync.Mutex{}
+			var kids []*mChild
+			var ps []tally.StatsReporter
+			var cs []tally.CachedStatsReporter
+			for i := 0; i < 3; i++ {
+				ch := &mChild{id: i, log: &log, reporting: true, tagging: true, obj: obj, mu: mu}
+				kids = append(kids, ch)
+				ps, cs = append(ps, ch), append(cs, ch)
+			}
+			var flush func()
+			var report, selfReport func(v int64)
+			if cached {
+				m := multi.NewMultiCachedReporter(cs...)
+				h, hs := m.AllocateCounter("c", nil), m.AllocateCounter("flushes", nil)
+				flush, report, selfReport = m.Flush, h.ReportCount, hs.ReportCount
+			} else {
+				m := multi.NewMultiReporter(ps...)
+				flush, report = m.Flush, func(v int64) { m.ReportCounter("c", nil, v) }
+				selfReport = func(v int64) { m.ReportCounter("flushes", nil, v) }
+			}
+			kids[1].onFlush = func() { selfReport(7) }
+			t1 := rt.GoNamed("caller1", func() { flush() })
+			t2 := rt.GoNamed("caller2", func() { report(1); flush() })
+			t1.Join()
+			t2.Join()
+			mu.Lock()
+			defer mu.Unlock()
+			for id := 0; id < 3; id++ {
+				nf, nc, ns := 0, 0, 0
+				for _, l := range log {
+					if !strings.HasPrefix(l, fmt.Sprintf("child%d ", id)) {
+						continue
+					}
+					switch {
+					case strings.HasSuffix(l, " flush"):
+						nf++
+					case strings.HasSuffix(l, " 7"):
+						ns++
+					case strings.HasSuffix(l, " 1"):
+						nc++
+					}
+				}
+				if nf != 2 || nc != 1 || ns != 2 {
+					x.failf("call-not-forwarded-exactly-once", "child %d saw %d flushes (2 made), %d reports of 1 (1 made), %d reports of 7 made from inside the middle child's Flush (2 made); log %v", id, nf, nc, ns, log)
+					return
+				}
+			}
+		}
+		sh.Check = func(x *Run, o *rt.Outcome) (string, string, string) { return "", "", "ok" }
+		out = append(out, sh)
 		// G: two goroutines ask for the capabilities at the same time and look at the answer a little later:
 		// every answer ever handed out must be the conjunction (here: nothing), whoever else is asking meanwhile
 		sg := &Scenario{Property: "C19", Name: "G-concurrent-capabilities-" + b2s(cached)}
